@@ -261,7 +261,8 @@ func (m *Model) uploadPost(h *Host, e *Entry, req *http.Request) *Resp {
 	if d := q.Get("mount"); d != "" {
 		from := q.Get("from")
 		if from != "" {
-			if fr, ok := h.Repos[from]; ok && h.Feat.MountGrant {
+			h.mountSeen++
+			if fr, ok := h.Repos[from]; ok && h.Feat.MountGrant && h.mountSeen > h.Feat.MountRefuseFirst {
 				if b, ok := fr.Blobs[d]; ok {
 					repo.Blobs[d] = b
 					e.Applied = true
